@@ -171,6 +171,60 @@ def decodeChar (ctx : Ctx) (sc : Pair) : M Char := do
     | [] => .error .emptyChar
   else .error (.modelBug "StringCharacter")
 
+/-- `unicode4_code`: the code of a `\uXXXX` pair (`split_at(2)`, `u32::from_str_radix(.., 16).unwrap()`) -/
+def unicode4Code (ctx : Ctx) (ch : Pair) : M Nat :=
+  let s := asStr ctx ch
+  if s.length < 2 then .error .splitAt else parseHexU32 (s.drop 2)
+
+/-- `0xD800..=0xDBFF` -/
+def isLeadSurrogate (n : Nat) : Bool := 0xD800 ≤ n && n ≤ 0xDBFF
+/-- `0xDC00..=0xDFFF` -/
+def isTrailSurrogate (n : Nat) : Bool := 0xDC00 ≤ n && n ≤ 0xDFFF
+/-- `0x10000 + ((code - 0xD800) << 10) + (trailing - 0xDC00)` -/
+def surrogatePairCode (lead trail : Nat) : Nat := 0x10000 + ((lead - 0xD800) <<< 10) + (trail - 0xDC00)
+
+/-- `trailing_surrogate`: the code of a `\uXXXX` pair in U+DC00 … U+DFFF -/
+def trailingSurrogate (ctx : Ctx) (ch : Pair) : M (Option Nat) :=
+  if ch.rule ≠ R.EscapedUnicode4 then .ok none
+  else do
+    let c ← unicode4Code ctx ch
+    .ok (if isTrailSurrogate c then some c else none)
+
+/-- `characters.peek().and_then(trailing_surrogate)`: the peeked element is the `only_child()` of the next
+    `StringCharacter` -/
+def peekTrailing (ctx : Ctx) : List Pair → M (Option Nat)
+  | [] => .ok none
+  | sc :: _ => do
+    let ch ← onlyChild sc
+    trailingSurrogate ctx ch
+
+/-- the loop of `build_string_value` over the `StringCharacter` pairs of a `NormalStringValue` (fix fff8e9c): a leading
+    surrogate `\uD800`–`\uDBFF` immediately followed by a trailing surrogate `\uDC00`–`\uDFFF`, both written as `\uXXXX`,
+    is ONE supplementary character; `skip = true`: the next pair is the trailing surrogate already consumed by
+    `characters.next()`. Every other character is decoded by `decodeChar`. -/
+def decodeChars (ctx : Ctx) : Bool → List Pair → M (List Char)
+  | _, [] => .ok []
+  | true, _ :: rest => decodeChars ctx false rest
+  | false, sc :: rest => do
+    let ch ← onlyChildOf OC_StringCharacter "StringCharacter" sc
+    if ch.rule = R.EscapedUnicode4 then
+      let code ← unicode4Code ctx ch
+      let tr ← peekTrailing ctx rest
+      match tr with
+      | some t =>
+        if isLeadSurrogate code then
+          let c ← charFromU32 (surrogatePairCode code t)
+          (c :: ·) <$> decodeChars ctx true rest
+        else do
+          let c ← charFromU32 code
+          (c :: ·) <$> decodeChars ctx false rest
+      | none => do
+        let c ← charFromU32 code
+        (c :: ·) <$> decodeChars ctx false rest
+    else do
+      let c ← decodeChar ctx sc
+      (c :: ·) <$> decodeChars ctx false rest
+
 /-- the characters of a string literal, as `build_string_value` returns them, and the position it records -/
 def stringValueChars (ctx : Ctx) (p : Pair) : M (List Char × Gql.Pos) := do
   let c ← onlyChildOf OC_StringValue "StringValue" p
@@ -182,7 +236,21 @@ def stringValueChars (ctx : Ctx) (p : Pair) : M (List Char × Gql.Pos) := do
     if s.length < 6 then .error .splitAt
     else .ok ((s.drop 3).take (s.length - 6), pos)
   else if c.rule = R.NormalStringValue then
-    -- `pair.into_inner()`: every child is handed to the StringCharacter dispatch
+    -- `pair.into_inner().map(|pair| pair.only_child()).peekable()`, then the loop
+    let cs ← decodeChars ctx false c.children
+    .ok (cs, pos)
+  else .error (.modelBug "StringValue")
+
+/-- `build_string_value` BEFORE fix fff8e9c (every `StringCharacter` decoded on its own; kept for the witness) -/
+def stringValueCharsOld (ctx : Ctx) (p : Pair) : M (List Char × Gql.Pos) := do
+  let c ← onlyChildOf OC_StringValue "StringValue" p
+  let pos := toPos ctx c
+  if c.rule = R.EmptyStringValue then .ok ([], pos)
+  else if c.rule = R.BlockStringValue then
+    let s := asStr ctx c
+    if s.length < 6 then .error .splitAt
+    else .ok ((s.drop 3).take (s.length - 6), pos)
+  else if c.rule = R.NormalStringValue then
     let cs ← c.children.mapM (decodeChar ctx)
     .ok (cs, pos)
   else .error (.modelBug "StringValue")
@@ -687,9 +755,51 @@ def badEscape (ctx : Ctx) (p : Pair) : Bool :=
   else if p.rule = R.EscapedUnicodeBrace then !escapeDenotesChar ((s.drop 3).take (s.length - 4))
   else false
 
-/-- offset of the first offending escape, if any -/
-def firstBadEscape (ctx : Ctx) (ps : List Pair) : Option Nat :=
+/-- offset of the first offending escape, if any — `validate_unicode_escapes` BEFORE fix fff8e9c (kept for the witness) -/
+def firstBadEscapeOld (ctx : Ctx) (ps : List Pair) : Option Nat :=
   ((flatList ps).find? (badEscape ctx)).map Pair.start
+
+/-- `u32::from_str_radix(digits, 16).ok()` -/
+def hexOk (digits : List Char) : Option Nat :=
+  match parseHexU32 digits with
+  | .ok n => some n
+  | .error _ => none
+
+/-- the loop of `validate_unicode_escapes` over the characters of ONE `NormalStringValue` (fix fff8e9c); `pending` = a leading
+    surrogate `\uD800`–`\uDBFF` that still waits for its trailing surrogate. Result: the pair reported as invalid. A pending
+    lead followed by anything but a `\uXXXX` in U+DC00 … U+DFFF (another kind of character, `\u{…}`, another lead, the end
+    of the literal) is an error AT THE LEAD; a trailing surrogate without lead, a `\u{…}` that denotes no scalar value are
+    errors at themselves. -/
+def scanEscapes (ctx : Ctx) : Option Pair → List Pair → Option Pair
+  | pending, [] => pending
+  | pending, ch :: rest =>
+    if ch.rule = R.EscapedUnicode4 then
+      match pending, hexOk ((asStr ctx ch).drop 2) with
+      | some lead, some c => if isTrailSurrogate c then scanEscapes ctx none rest else some lead
+      | some lead, none => some lead
+      | none, some c =>
+        if isLeadSurrogate c then scanEscapes ctx (some ch) rest
+        else if validScalar c then scanEscapes ctx none rest else some ch
+      | none, none => some ch
+    else if ch.rule = R.EscapedUnicodeBrace then
+      match pending with
+      | some lead => some lead
+      | none =>
+        let s := asStr ctx ch
+        if escapeDenotesChar ((s.drop 3).take (s.length - 4)) then scanEscapes ctx none rest else some ch
+    else
+      match pending with
+      | some lead => some lead
+      | none => scanEscapes ctx none rest
+
+/-- `string.into_inner().flat_map(|c| c.into_inner())` -/
+def stringCharacters (p : Pair) : List Pair := p.children.flatMap Pair.children
+
+/-- offset of the first offending escape, if any (`validate_unicode_escapes`: every `NormalStringValue` of the flattened
+    tree, in document order; a pending lead never crosses a literal boundary) -/
+def firstBadEscape (ctx : Ctx) (ps : List Pair) : Option Nat :=
+  (flatList ps).findSome? fun p =>
+    if p.rule = R.NormalStringValue then (scanEscapes ctx none (stringCharacters p)).map Pair.start else none
 
 inductive Outcome (α : Type) where
   | ok (a : α)
@@ -722,6 +832,13 @@ def parseWith {α} (g : G) (mkCtx : List Char → Ctx) (root : RuleId) (build : 
       | .ok a => .ok a
       | .error .fuel => .outOfFuel
       | .error p => .panic p
+
+/-- `parseWith` BEFORE fix fff8e9c: the old validation, the old string builder cannot be reached through the document
+    builders any more, so only the validation verdict is modelled (kept for the witness) -/
+def rejectsOld (root : RuleId) (inp : List Char) : Option (Nat × Nat) :=
+  match Peg.parse gList (defaultFuel inp) root inp with
+  | .pairs ps => (firstBadEscapeOld (Ctx.spec inp) ps).map (lineCol inp)
+  | _ => none
 
 /-- model of `parse_operation_document` -/
 def parseOp (inp : List Char) : Outcome Gql.Doc :=
